@@ -705,8 +705,12 @@ def render_instance(tree, uris, style, gen_prefix):
     """expected infoset -> XML text; style: generated prefixes | renamed prefixes | default namespace for the root's"""
     nss = []
 
+    unq = []
+
     def collect(n):
-        if n["ns"] not in nss:
+        if n["ns"] == "unqualified":
+            unq.append(n)
+        elif n["ns"] not in nss:
             nss.append(n["ns"])
         for k in n["kids"]:
             collect(k)
@@ -719,10 +723,14 @@ def render_instance(tree, uris, style, gen_prefix):
         elif style == "renamed":
             prefix[ns] = f"zz{i}"
         else:
-            prefix[ns] = "" if ns == tree["ns"] else f"d{i}"
+            # a default namespace would capture the unqualified local elements below it: with such elements in the
+            # document the root's namespace gets a prefix as well
+            prefix[ns] = "" if (ns == tree["ns"] and not unq) else f"d{i}"
     decl = "".join((f' xmlns:{p}="{xml_attr(uris.get(ns, ns))}"' if p else f' xmlns="{xml_attr(uris.get(ns, ns))}"') for ns, p in prefix.items())
 
     def q(n):
+        if n["ns"] == "unqualified":
+            return n["local"]
         p = prefix[n["ns"]]
         return f"{p}:{n['local']}" if p else n["local"]
 
